@@ -261,3 +261,70 @@ class TransMomentSpace(Contract):
         O = M.fn("OUTER[trans_moment]", z3.IntSort(), z3.IntSort(), z3.RealSort())
         return [("is-X-<I|d|Psi0>-with-1/sqrt(n_o!n_v!)-and-default-operator-string",
                  as_expr(result).f["val"] == O(n, n + 1))]
+
+
+# --- expectation_value: summation over the blocks of the ADC(n) matrix ------------------------
+# ADC(n): the k-th excitation class above the minimal one is treated through order n - k,
+# the block (k, l) through order n - k - l.  Proved for the enumerated ADC orders 0..4 (the
+# block tables are executed concretely: SecularMatrix.block_order / max_ptorder_spaces are
+# inlined), every perturbation order selection and left / right variants of the same kind.
+EXPEC = {}
+C.INLINE.add(c03.SM + ".block_order")
+C.INLINE.add(c03.SM + ".max_ptorder_spaces")
+
+
+def _expec_value(block, o, npart, sub):
+    key = ",".join(block) if isinstance(block, tuple) else block
+    f = M.fn(f"EXPEC[{key}]", z3.IntSort(), z3.IntSort(), z3.BoolSort(), z3.RealSort())
+    return f(term(o) if not isinstance(o, int) else z3.IntVal(o), term(npart), term(sub))
+
+
+def _expec_callers_view(self, vc, a):
+    e = mk_expr(_expec_value(a["block"], a["order"], a["n_particles"], a["subtract_gs"]), False)
+    e.f["stamps"] = frozenset()
+    return e
+
+
+ExpecBlockContribution.apply = _expec_callers_view
+
+
+def _class_space(min_space, k):
+    return "p" * k + min_space + "h" * k
+
+
+@register
+class PropertiesExpectationValue(Contract):
+    key = PR + ".expectation_value"
+    props = ["C05"]
+    CASES = [(n, sel, var) for n in range(0, 5) for sel in ("all", "zero", "highest", "beyond")
+             for var in ("pp", "ip", "ip/ea")]
+    split_first_choice = len(CASES)
+
+    def setup(self, vc):
+        n, sel, var = self.CASES[vc.choose(len(self.CASES), "case")]
+        order = {"all": None, "zero": 0, "highest": n, "beyond": n + 1}[sel]
+        lv, rv = var.split("/") if "/" in var else (var, var)
+        props = new_props(vc, lv)
+        if rv != lv:
+            # different ADC variants for the left and the right states
+            props.attrs["r_isr"] = Inst(c04.ISR, dict(c04.new_isr(vc, rv).attrs, _tag="R"))
+        for side in ("l", "r"):
+            props.attrs[f"{side}_m"] = Inst(c03.SM, {"isr": props.attrs[f"{side}_isr"]})
+        vc.ghost["_pe"] = {"n": n, "order": order, "min": (c04.VARIANTS[lv][0], c04.VARIANTS[rv][0])}
+        return {"self": props, "adc_order": n, "n_particles": Sym(vc.fresh_int("n_particles")),
+                "order": order, "subtract_gs": Sym(vc.fresh_bool("subtract_gs"))}
+
+    def post(self, vc, a, result):
+        st = vc.ghost["_pe"]
+        n, order, ms = st["n"], st["order"], st["min"]
+        total = z3.RealVal(0)
+        for ka in range(n // 2 + 1):
+            for kb in range(n // 2 + 1):
+                mx = n - ka - kb
+                block = (_class_space(ms[0], ka), _class_space(ms[1], kb))
+                orders = range(mx + 1) if order is None else ([order] if mx >= order else [])
+                for o in orders:
+                    total = total + _expec_value(block, o, a["n_particles"], a["subtract_gs"])
+        val = z3.RealVal(result) if isinstance(result, int) else as_expr(result).f["val"]
+        return [("is-the-sum-of-the-block-contributions-of-the-ADC(n)-matrix-through-their-orders",
+                 val == total)]
